@@ -492,6 +492,15 @@ FIXED = [
     ('fn', ['*', '!(a)'], ['NEGATE'], '(a)', False),                # without EXTMATCH `!(a)` is the exclusion of `(a)`
     ('fn', ['!a'], ['NEGATE'], 'b', False),                         # exclusions alone match nothing
     ('fn', ['!a'], ['NEGATE', 'NEGATEALL'], 'b', True),
+    # an empty piece is an inclusion (that matches nothing): the implicit match-everything of NEGATEALL is for exclusion-ONLY lists
+    ('fn', ['', '!b'], ['NEGATE', 'NEGATEALL'], 'a', False),
+    ('fn', ['!b', ''], ['NEGATE', 'NEGATEALL'], 'a', False),
+    ('fn', ['!b|'], ['NEGATE', 'NEGATEALL', 'SPLIT'], 'a', False),
+    ('fn', ['|!b'], ['NEGATE', 'NEGATEALL', 'SPLIT'], 'a', False),
+    ('fn', ['{!b,!c}|'], ['NEGATE', 'NEGATEALL', 'SPLIT', 'BRACE'], 'a', False),
+    ('gl', ['', '!b'], ['NEGATE', 'NEGATEALL'], 'a', False),
+    ('gl', ['!b|'], ['NEGATE', 'NEGATEALL', 'SPLIT'], 'x/a', False),
+    ('fn', ['!b|!c'], ['NEGATE', 'NEGATEALL', 'SPLIT'], 'a', True),
     ('fn', ['!a'], ['NEGATE', 'NEGATEALL'], '.b', False),
     ('fn', ['!a'], ['NEGATE', 'NEGATEALL', 'DOTMATCH'], '.b', True),
     ('gl', ['!a'], ['NEGATE', 'NEGATEALL'], 'x/b', True),           # the implicit inclusion is `**` with GLOBSTAR
